@@ -123,6 +123,13 @@ PROGRAMS: List[Tuple[str, str, bool]] = [
     ("generator-closed-early", "(CLOSE(M.gen_finally_(3)), M.f(1))", False),
     ("coroutine-and-generator", "(DRIVE(M.coro(1)), list(M.gen_rebind('x')), DRIVE(M.coro([2])))", False),
 ]
+# thorough tier only: longer programs (complete enumeration of every answer vector up to 11 draws)
+PROGRAMS_THOROUGH: List[Tuple[str, str, bool]] = [
+    ("nine-calls", "[M.f(i) for i in (0, 'a', None)] + [M.g(1), M.top(2)]", True),
+    ("ten-calls-recursive", "(M.rec(4), M.top(1))", True),
+    ("three-generators", "(list(M.gen_rebind(1)), list(M.gen_outer(2)), list(M.gen_inner(3)), THROW(M.gen_catch(4)), M.f(5))", False),
+    ("coroutines-generators-async", "(DRIVE(M.coro(1)), ADRIVE(M.agen(2)), list(M.gen_rebind(3)), INTERLEAVE(M.gen_rebind(4), M.gen_inner(5)), CLOSE(M.gen_finally_(6)))", False),
+]
 RATES = [None, 1, 2, 3, 10, 100]
 
 
@@ -340,8 +347,8 @@ def explore_program(res: Result, M, files, pi: int, rate, fake: FakeRandom) -> N
         res.violate(Violation(ID, "frequency", "fewer-draws-than-calls", {"program": name, "pi": pi, "rate": rate, "answers": list(answers)}, f"{name} rate={rate}: {nframes} fresh calls but only {ndraw} sampling draws (some calls bypass sampling)"))
     if (not rate or rate == 1) and ndraw and rate is None:
         raise HarnessError("RNG consulted although no sample rate is set")
-    full = ndraw <= (8 if THOROUGH[0] else 6)
-    bound = ndraw if full else (5 if THOROUGH[0] else 3)
+    full = ndraw <= (11 if THOROUGH[0] else 6)
+    bound = ndraw if full else (6 if THOROUGH[0] else 3)
     seen_vectors = set()
     logged_counts = set()
 
@@ -381,7 +388,7 @@ def explore_program(res: Result, M, files, pi: int, rate, fake: FakeRandom) -> N
     if not full:
         res.caps.append(f"{name}@{rate}: {ndraw} draws > 6: vectors limited to <= 3 deviations from all-sample and never-sample") if False else None
     # exact expectation of the traced fraction over {0, non-zero} answers
-    if rate and rate >= 2 and ndraw <= 10:
+    if rate and rate >= 2 and ndraw <= (14 if THOROUGH[0] else 10):
         exp = 0.0
         total_p = 0.0
 
@@ -528,6 +535,8 @@ def sessions_and_cli(ctx: Ctx) -> Result:
 
 
 def run(ctx: Ctx) -> Result:
+    if ctx.tier == "thorough" and PROGRAMS_THOROUGH[0] not in PROGRAMS:
+        PROGRAMS.extend(PROGRAMS_THOROUGH)
     jobs = [(pi, rate) for pi in range(len(PROGRAMS)) for rate in RATES]
 
     def work(ctx: Ctx, job) -> Result:
@@ -544,8 +553,8 @@ def run(ctx: Ctx) -> Result:
     res.obligations.setdefault("some-vector-skips-a-call-another-traces", False)
     res.obligations.setdefault("sessions-sharing-a-logger", False)
     res.obligations.setdefault("cli-run-with-sample-rate", False)
-    res.bounds["complete_up_to_draws"] = 8 if ctx.tier == "thorough" else 6
-    res.bounds["deviation_bound_beyond"] = 5 if ctx.tier == "thorough" else 3
+    res.bounds["complete_up_to_draws"] = 11 if ctx.tier == "thorough" else 6
+    res.bounds["deviation_bound_beyond"] = 6 if ctx.tier == "thorough" else 3
     return res
 
 
@@ -558,6 +567,8 @@ def replay(case: Dict[str, Any], ctx: Ctx) -> List[Violation]:
     if case["answers"] == "expectation" or not case.get("answers"):
         explore_program(res, M, files, case["pi"], case["rate"], fake)
         return [v for v in res.violations if v.kind == "frequency"] or res.violations
+    if case.get("pi", 0) >= len(PROGRAMS):
+        PROGRAMS.extend(PROGRAMS_THOROUGH)
     name, expr, plain = PROGRAMS[case["pi"]]
     col, rec, points, answers, residue = run_once(M, files, expr, case["rate"], fake, list(case["answers"]), False)
     judge_run(res, case, col, rec, residue, case["rate"], f"{name} rate={case['rate']} answers={answers}")
